@@ -97,6 +97,8 @@ def check_region(res, ctx, rule_state, rule_host, keys, label):
             res.violation(rule_host, '%s:%s:host-mutation:%s' % (ev.key[0], ev.key[1], _norm(ev.detail)), ev.where(),
                           '%s mutates %s in place (%s)' % (label, desc, ev.detail),
                           case=' -> '.join(fmt(k) for k in ev.chain[-4:]), func=ev.key[1])
+    from . import pitfalls
+    n_events += pitfalls.check(res, ctx, keys, label)
     return n_events
 
 
